@@ -487,4 +487,76 @@ example : ChainOK genesisSys ∧ genesisSys.hub.bBond + genesisSys.hub.sBond ≤
   ⟨⟨fun _ _ => rfl, fun _ _ => rfl⟩, by decide, by decide, by decide, by decide, by decide⟩
 example : Backed 900 1000 0 ∧ Backed 0 0 0 := ⟨Or.inl (by decide), Or.inr rfl⟩
 
+
+/-! ### along a history: the bSei and stSei value of a passive holder -/
+
+/-- an environment event other than a validator slash or the injection of pre-migration entries
+    leaves the reported rates alone -/
+theorem env_keeps_rates (s : Sys) (e : EnvOp) (hns : ∀ v n d, e ≠ .slash v n d) (hne : ∀ u b a, e ≠ .seedLegacy u b a) :
+    reportedRates (s.env e) = reportedRates s := by
+  apply reportedRates_of_samePools
+  have sc := env_same s e hne
+  have hdl : (s.env e).chain.deleg = s.chain.deleg ∧ (s.env e).chain.delegSet = s.chain.delegSet := by
+    cases e with
+    | slash v n d => exact absurd rfl (hns v n d)
+    | slashUnbonding v n d => simp only [Sys.env]; split <;> exact ⟨rfl, rfl⟩
+    | seedLegacy u b a => exact absurd rfl (hne u b a)
+    | _ => exact ⟨rfl, rfl⟩
+  exact ⟨by rw [sc.hub], by rw [sc.hub], by rw [sc.hub], by rw [sc.hub], by rw [sc.hub], by rw [sc.hub],
+    by rw [sc.hub], by rw [sc.hub], by rw [sc.bsei], by rw [sc.stsei], hdl.1, hdl.2⟩
+
+/-- a history in which every transaction meets the premises of `C04_tx_never_lowers_rates` where it
+    starts, leaves claims on both tokens, and the State query answers before and after it; and no
+    event slashes a validator -/
+inductive Steady : Sys → List Step → Prop where
+  | nil (s : Sys) : Steady s []
+  | env (s : Sys) (e : EnvOp) (rest : List Step) (hns : ∀ v n d, e ≠ .slash v n d)
+      (hne : ∀ u b a, e ≠ .seedLegacy u b a) (h : Steady (s.env e) rest) : Steady s (.env e :: rest)
+  | tx (s : Sys) (m : Msg) (rest : List Step)
+      (hstk : isStake m = false) (hmint : isMint m = false) (hsnd : m.sentFrom ≠ hubA)
+      (hb0 : s.hub.bBond + s.hub.sBond ≠ 0)
+      (backB : Backed s.hub.bBond s.bsei.supply s.hub.reqB) (backS : Backed s.hub.sBond s.stsei.supply s.hub.reqS)
+      (hq : ∃ r, reportedRates (s.exec m).1 = .ok r)
+      (hcb : (s.exec m).1.bsei.supply + (s.exec m).1.hub.reqB ≠ 0)
+      (hcs : (s.exec m).1.stsei.supply + (s.exec m).1.hub.reqS ≠ 0)
+      (h : Steady (s.exec m).1 rest) : Steady s (.tx m :: rest)
+
+/-- **Along any steady history both reported rates only rise** — so the coin value
+    `⌊balance × rate⌋` of a passive holder of either token never shrinks. -/
+theorem C04_steady_history (s : Sys) (l : List Step) (hst : Steady s l)
+    (c : ChainOK s) (hbk : s.hub.bBond + s.hub.sBond ≤ totalDelegated s)
+    (btok : s.hub.bsei = some bseiA) (stok : s.hub.stsei = some stseiA)
+    (bwf : s.bsei.WF) (swf : s.stsei.WF) (bhub : s.bsei.hub = hubA) (shub : s.stsei.hub = hubA)
+    (rb rs : Nat) (h0 : reportedRates s = .ok (rb, rs)) :
+    ∃ rb' rs', reportedRates (s.steps l) = .ok (rb', rs') ∧ rb ≤ rb' ∧ rs ≤ rs' ∧
+      ∀ bal, mulDec bal rb ≤ mulDec bal rb' ∧ mulDec bal rs ≤ mulDec bal rs' := by
+  induction hst generalizing rb rs with
+  | nil s => exact ⟨rb, rs, h0, Nat.le_refl _, Nat.le_refl _, fun _ => ⟨Nat.le_refl _, Nat.le_refl _⟩⟩
+  | env s e rest hns hne _ ih =>
+    have one : ∀ st ∈ [Step.env e], NoSlash st := by
+      intro st hm; simp only [List.mem_singleton] at hm; subst hm
+      cases e with
+      | slash v n d => exact absurd rfl (hns v n d)
+      | _ => trivial
+    have bk := C02_reachable s [.env e] c hbk one
+    have tk := tokens_registered_reachable s [.env e] btok stok
+    have wf := C18_reachable s [.env e] bwf swf
+    exact ih bk.2 bk.1 tk.1 tk.2 wf.1 wf.2.1 (wf.2.2.1.trans bhub) (wf.2.2.2.1.trans shub) rb rs
+      (by rw [env_keeps_rates s e hns hne]; exact h0)
+  | tx s m rest hstk hmint hsnd hb0 backB backS hq hcb hcs _ ih =>
+    obtain ⟨⟨r1, r2⟩, hq⟩ := hq
+    have k := C04_tx_never_lowers_rates s m hstk hmint hsnd c hbk hb0 btok stok bwf swf bhub shub backB backS
+      rb rs r1 r2 h0 hq
+    have hb1 : rb ≤ r1 := by rcases k.1 with h | h; exact absurd h hcb; exact h
+    have hs1 : rs ≤ r2 := by rcases k.2 with h | h; exact absurd h hcs; exact h
+    have one : ∀ st ∈ [Step.tx m], NoSlash st := by
+      intro st hm; simp only [List.mem_singleton] at hm; subst hm; exact hstk
+    have bk := C02_reachable s [.tx m] c hbk one
+    have tk := tokens_registered_reachable s [.tx m] btok stok
+    have wf := C18_reachable s [.tx m] bwf swf
+    obtain ⟨rb', rs', h1, h2, h3, _⟩ := ih bk.2 bk.1 tk.1 tk.2 wf.1 wf.2.1 (wf.2.2.1.trans bhub)
+      (wf.2.2.2.1.trans shub) r1 r2 hq
+    refine ⟨rb', rs', h1, Nat.le_trans hb1 h2, Nat.le_trans hs1 h3, fun bal => ?_⟩
+    exact ⟨C04_passive_value_mono _ _ _ (Nat.le_trans hb1 h2), C04_passive_value_mono _ _ _ (Nat.le_trans hs1 h3)⟩
+
 end Krp
